@@ -959,3 +959,7 @@ UNIT_META["commit_apply"]["assumes"] = UNIT_META["commit_apply"]["assumes"] + ["
 UNIT_META["iter_reposition"]["functions"] = UNIT_META["iter_reposition"]["functions"] + ["btree::iter::BTreeIterator::{seek,seek_to_last}"]
 UNIT_META["iter_reposition"]["assumes"] = UNIT_META["iter_reposition"]["assumes"] + ["client-facing seeks: the `&RwLock<LogOverlays>` field and its read guard are stand-ins declared in the template; `self.iter` is the two fields tree / iter; `<[T]>::to_vec` by contract; the calls to seek_backend / seek_backend_to_last are rewritten to the free-function form the unit gives them (listed rewrites)"]
 PROPS["C04"]["claim"] = PROPS["C04"]["claim"] + " Client-facing seeks (Verus): BTreeIterator::seek and seek_to_last forget the parked lookahead of the merge (an item fetched from the tree for the position before the seek), remember the seeked key / the end position for later repositioning, and leave the backend at the key asked for / after the last key."
+
+# ---------------------------------------------------------------- U32 extension: the file is closed for appending before its sync starts
+PROPS["C12"]["claim"] = PROPS["C12"]["claim"] + " While and after a log file is synced no record can be appended to it (Kani, bounded): at the fdatasync of Log::flush_one the file has been taken out of the writer slot, or the slot is held exclusively -- a record appended between the sync and the hand-over would be applied to the tables unsynced."
+UNIT_META["U32"]["assumes"] = UNIT_META["U32"]["assumes"] + ["File::try_clone (dup(2)) is declared by contract although the code does not call it, so that an edit syncing through a second handle is decided; the other thread is not modelled: the obligation is that the writer slot is empty or exclusively held at the time of the sync"]
